@@ -62,11 +62,14 @@ class State:
             # an *equal* dict built in another insertion order (dict equality ignores it)
             random.Random(len(items) * 7919 + sum(a for a, _ in items)).shuffle(items)
         self.lm = dict(items)
-        self.cfg = snap["cfg"]
-        self.filt = dsw.LocalBioFilter(observed_length=self.k, max_homopolymer_runs=self.cfg["run"], gc_range=self.cfg["gc"],
-                                       undesired_motifs=self.cfg["motifs"])
+        self.cfg = copy.deepcopy(snap["cfg"])
+        self.filt = dsw.LocalBioFilter(observed_length=self.k, max_homopolymer_runs=self.cfg["run"], gc_range=copy.deepcopy(self.cfg["gc"]),
+                                       undesired_motifs=copy.deepcopy(self.cfg["motifs"]))   # the shared filter owns its own lists
         self.strand = snap["strand"]
         self.check = snap["check"]
+        # the caller's own constraint lists, handed to the filter constructor as they are
+        self.motif_list = None if self.cfg["motifs"] is None else list(self.cfg["motifs"])
+        self.gc_list = None if self.cfg["gc"] is None else list(self.cfg["gc"])
 
     def snap(self):
         return dict(k=self.k, start=self.start, acc=G.acc_to_hex(self.acc), msg=[int(b) for b in self.msg],
@@ -76,7 +79,7 @@ class State:
 
     def objects(self):
         return dict(accessor=self.acc, message=self.msg, table=self.table, mask=self.mask, latter_map=self.lm,
-                    filter=vars(self.filt))
+                    filter=vars(self.filt), motif_list=self.motif_list, gc_list=self.gc_list)
 
 
 def canon(x):
@@ -263,6 +266,12 @@ def _(dsw, S, p, v):
     return S.filt.valid(S.strand, only_last=p["last"])
 
 
+@op("make_filter")
+def _(dsw, S, p, v):
+    f = dsw.LocalBioFilter(observed_length=S.k, max_homopolymer_runs=S.cfg["run"], gc_range=S.gc_list, undesired_motifs=S.motif_list)
+    return [sorted((a, canon(b)) for a, b in vars(f).items()), bool(f.valid(S.strand)) if S.strand else None]
+
+
 @op("remove_nasty_arc", verbose=True, in_place=True)
 def _(dsw, S, p, v):
     r = dsw.remove_nasty_arc(S.acc, S.lm, p["it"], p["ins"], p["dele"], verbose=v)
@@ -322,7 +331,8 @@ def fresh_run(recs):
         with os.fdopen(fd, "w") as f:
             f.write(jdump(recs))
         env = dict(os.environ)
-        env.update(PYTHONDONTWRITEBYTECODE="1", PYTHONHASHSEED="0", VERIF_REPO=REPO)
+        # a fresh process has its own string-hash salt: never the one of this process
+        env.update(PYTHONDONTWRITEBYTECODE="1", PYTHONHASHSEED="1" if os.environ.get("PYTHONHASHSEED") == "0" else "0", VERIF_REPO=REPO)
         p = subprocess.run([sys.executable, os.path.abspath(__file__), "--fresh", path], env=env, cwd=VERIF, timeout=300,
                            stdout=subprocess.PIPE, stderr=subprocess.PIPE)
         txt = p.stdout.decode(errors="replace")
@@ -353,13 +363,13 @@ def _initial(rng, large=False, strip=False):
     strand = G.random_walk(acc, start, rng.randint(2 * k + 2, 6 * k + 4), rng)
     lm = [[v, [int(w) for w in acc[v] if w >= 0]] for v in live]
     cfg = dict(run=rng.choice([None, 1, 2]), gc=rng.choice([None, [0.25, 0.75], [0.5, 0.5], [0.0, 1.0]]),
-               motifs=rng.choice([None, [gens.random_dna(rng, 2)]]))
+               motifs=rng.choice([None, [gens.random_dna(rng, 2)], [gens.random_dna(rng, 2).lower()], [gens.random_dna(rng, 2), "Gc"]]))
     return dict(k=k, start=start, acc=G.acc_to_hex(acc), msg=rng.choice([[], [0] * rng.randint(1, 12)] + [[rng.randint(0, 1) for _ in range(rng.randint(1, 36))] for _ in range(10)]),
                 table=gens.table(rng, k, "random"), mask=G.mask_to_hex(gens.rand_mask(rng, k, rng.choice([0.6, 0.85, 1.0]))),
                 lm=lm, cfg=cfg, strand=strand, check=oracles.vt(strand, 4))
 
 
-LARGE_OPS = {"obtain_formers", "obtain_latters", "approximate_capacity", "approximate_capacity", "connect_valid_graph", "get_complete_accessor",
+LARGE_OPS = {"make_filter", "obtain_formers", "obtain_latters", "approximate_capacity", "approximate_capacity", "connect_valid_graph", "get_complete_accessor",
              "obtain_vertices", "accessor_to_latter_map", "create_random_shuffles", "set_vt", "obtain_leaf_vertices", "filter_valid"}
 WEIGHTS = [("encode", 6), ("decode", 5), ("repair_dna", 4), ("set_vt", 2), ("bit_to_number", 2), ("number_to_bit", 1),
            ("dna_to_number", 1), ("number_to_dna", 1), ("calculus", 2), ("find_vertices", 2), ("connect_valid_graph", 2),
@@ -367,7 +377,7 @@ WEIGHTS = [("encode", 6), ("decode", 5), ("repair_dna", 4), ("set_vt", 2), ("bit
            ("create_random_shuffles", 2), ("accessor_to_latter_map", 2), ("latter_map_to_accessor", 2),
            ("accessor_to_adjacency_matrix", 1), ("adjacency_matrix_to_accessor", 1), ("obtain_vertices", 1),
            ("obtain_leaf_vertices", 4), ("obtain_formers", 1), ("obtain_latters", 1), ("get_complete_accessor", 3), ("path_matching", 2), ("remove_useless", 2),
-           ("filter_valid", 2), ("remove_nasty_arc", 8), ("trim_then_remove", 3)]
+           ("filter_valid", 2), ("make_filter", 2), ("remove_nasty_arc", 8), ("trim_then_remove", 3)]
 
 
 def _params(rng, name, S):
@@ -402,7 +412,8 @@ def _params(rng, name, S):
     if name == "calculate_intersection_score":
         return dict(ins=rng.random() < 0.5, dele=rng.random() < 0.5)
     if name == "create_random_shuffles":
-        return dict(seed=rng.getrandbits(32), adopt=rng.random() < 0.5)
+        # a pass-phrase instead of a number is refused (TypeError) - in every process alike
+        return dict(seed=rng.getrandbits(32) if rng.random() < 0.85 else "archive-%d" % rng.randrange(5), adopt=rng.random() < 0.5)
     if name == "latter_map_to_accessor":
         return dict(t=rng.choice([None, None, 1, 2]))
     if name == "obtain_leaf_vertices":
